@@ -249,6 +249,76 @@ def _():
         'BASIC_CONSTRAINT = re.compile(r"^(!?==?)?\\s*([^\\s]+?)\\s*$")',
         'BASIC_CONSTRAINT = re.compile(r"^(!=|==?)?\\s*([^\\s]+?)\\s*$")')
 
+@fix("D10", "fix: markers with reversed operands accept every comparison operator ('\"3.8\" <= python_version')")
+def _():
+    sub("version/markers.py",
+        """            if swapped_name_value:
+                name, value = value, name
+
+            value = value[1:-1]
+""",
+        """            if swapped_name_value:
+                name, value = value, name
+                if op not in ("in", "not in"):
+                    # '"3.8" <= python_version' is 'python_version >= "3.8"'
+                    op = {"<": ">", "<=": ">=", ">": "<", ">=": "<="}.get(op, op)
+                    swapped_name_value = False
+                    stringed_value = False
+
+            value = value[1:-1]
+""")
+
+@fix("D15", "fix: pad python_full_version literals only when they are plain release numbers (3.* no longer becomes 3.dev0.0)")
+def _():
+    sub("version/markers.py",
+        """                if precision < 3:
+                    suffix = ".0" * (3 - precision)""",
+        """                if precision < 3 and self._value.replace(".", "").isdigit():
+                    suffix = ".0" * (3 - precision)""")
+
+@fix("D23", "fix: equality and hash of single markers distinguish '\"x\" in name' from 'name in \"x\"'")
+def _():
+    sub("version/markers.py",
+        """        return self._name, self._operator, self._value
+
+    def reduce_by_python_constraint(""",
+        """        return self._name, self._operator, self._value, self._swapped_name_value
+
+    def reduce_by_python_constraint(""")
+
+@fix("D12b", "fix: intersection()/union() of markers drop universal resp. empty operands instead of keeping them in the result")
+def _():
+    sub("version/markers.py",
+        """def intersection(*markers: BaseMarker) -> BaseMarker:
+    # Sometimes normalization""",
+        """def intersection(*markers: BaseMarker) -> BaseMarker:
+    if any(m.is_empty() for m in markers):
+        return EmptyMarker()
+    markers = tuple(m for m in markers if not m.is_any())
+    if not markers:
+        return AnyMarker()
+
+    # Sometimes normalization""")
+    sub("version/markers.py",
+        """def union(*markers: BaseMarker) -> BaseMarker:
+    # Sometimes normalization""",
+        """def union(*markers: BaseMarker) -> BaseMarker:
+    if any(m.is_any() for m in markers):
+        return AnyMarker()
+    markers = tuple(m for m in markers if not m.is_empty())
+    if not markers:
+        return EmptyMarker()
+
+    # Sometimes normalization""")
+
+@fix("D13", "fix: 'python_version >= \"3\" and < \"4\"' is not collapsed to python_version == \"3\" (one-component lower bound)")
+def _():
+    sub("version/markers.py",
+        """            if result_constraint.min:
+                # Convert""",
+        """            if result_constraint.min and result_constraint.min.precision >= 2:
+                # Convert""")
+
 def main():
     id_ = sys.argv[1]
     msg, f = FIXES[id_]
